@@ -1,14 +1,14 @@
 #!/bin/sh
-# round-4 seeds: tools/confirm_r4.sh Cxx  -> confirms /tmp/seed4/Cxx/_out/m{1,2,3}.* into /verif/seeded/Cxx-r4m<k>/
+# round-4 seeds: tools/confirm_r4.sh Cxx  -> confirms /tmp/seed${R:-4}/Cxx/_out/m{1,2,3}.* into /verif/seeded/Cxx-r4m<k>/
 # then runs each confirmed seed through the check of its property (tools/mutate.sh) and records the verdict.
 PID="$1"; mkdir -p /tmp/mut
 for k in 1 2 3; do
-  [ -f /tmp/seed4/$PID/_out/m$k.diff ] || continue
-  SEED_SRC=/tmp/seed4 SEED_TAG=r4m /venv/bin/python /verif/tools/confirm_seed.py $PID $k >> /tmp/mut/confirm4.log 2>&1
+  [ -f /tmp/seed${R:-4}/$PID/_out/m$k.diff ] || continue
+  SEED_SRC=/tmp/seed${R:-4} SEED_TAG=r${R:-4}m /venv/bin/python /verif/tools/confirm_seed.py $PID $k >> /tmp/mut/confirm4.log 2>&1
 done
 for k in 1 2 3; do
-  D=/verif/seeded/$PID-r4m$k
+  D=/verif/seeded/$PID-r${R:-4}m$k
   [ -f $D/patch.diff ] || continue
-  KEEP_LOG=/tmp/mut/check-$PID-r4m$k.log sh /verif/tools/mutate.sh $PID $D/patch.diff $D/demo.py > /tmp/mut/verdict-$PID-r4m$k.txt 2>&1
+  KEEP_LOG=/tmp/mut/check-$PID-r${R:-4}m$k.log sh /verif/tools/mutate.sh $PID $D/patch.diff $D/demo.py > /tmp/mut/verdict-$PID-r${R:-4}m$k.txt 2>&1
 done
 echo "DONE $PID" >> /tmp/mut/confirm4.log
